@@ -92,5 +92,14 @@ CHECKS = {
              "float32 rounding of stored statistics is declined.",
         technique="static analysis: normal-form equality against the statement's formulas, use-shape (syntactic context) rule, sibling decision tables",
     ),
+    "C15": dict(
+        category=OTHER,
+        text="Accumulator roles of both encodings identified by (guard, addend); the returned expression is compared with the closed form of the mean-filled Pearson "
+             "correlation derived from the statement (squared identity of rational normal forms with sqrt atoms + one sign-fixing point); zero cases and division guards; "
+             "int/nodata vs float/NaN sibling agreement; both layouts call the same routine on their own time slice; dispatch on nodata is None; site binding and float32 "
+             "declared/written. Known finding D11: the code's numerator differs from the statement's when the series has gaps.",
+        note="Trusted: the closed form (N cancels; filled cells deviate by 0 from the mean); f^2 == g^2 => f == +-g. Range bound and affine invariance in floating point are declined.",
+        technique="static analysis: (guard, addend) descriptors + rational normal-form identity against the statement's closed form, sibling comparison",
+    ),
 }
 NOT_APPLICABLE = {}
